@@ -281,3 +281,4 @@ def run(ctx: Ctx) -> None:
     from . import c07, c06
     c07.r07_7(ctx)
     c06.r06_5(ctx, rule="R01.4")
+    c07.r07_1(ctx, rule="R01.5")  # a wrong Name/EmptyStream record size makes the written archive unreadable
